@@ -74,6 +74,9 @@ def clientUpdate (c : Conn) (t : Int) : Conn × List Event :=
 /-- `ServerClientConnection._recvClientHello(data)`; `tok` = what `ctxt.get_token()` returns -/
 def serverClientHello (H : Hs) (tok : Nat) (c : Conn) (_t : Int) (data : Bytes) :
     Conn × List Event × Option Err :=
+  -- one hello per connection (repaired): a connection that already has a session key ignores
+  -- further hellos, before anything of them is parsed
+  if c.key.isSome then (c, [], none) else
   match H.parseClientHello data with
   | .error e => (c, [], some e)
   | .ok ver =>
